@@ -46,7 +46,7 @@ type Seq struct {
 	lastChange   map[string]time.Time
 	// the worker was started while the master head was committed (locked) and json_schema has not been posted since
 	lockedStart bool
-	TimeGuard    time.Duration
+	TimeGuard   time.Duration
 }
 
 func NewSeq(c *drv.Ctx, name string, r *rand.Rand, bin string, w *drv.Worker) (*Seq, error) {
